@@ -154,6 +154,10 @@ fn median(mut price_list: Vec<Price>) -> Option<Price> {
     Some(median)
 }
 
+#[cfg(all(test, feature = "verif"))]
+#[path = "/verif/harness/core/mod.rs"]
+mod verif;
+
 #[cfg(test)]
 mod test {
     use indexmap::indexmap;
